@@ -20,12 +20,14 @@
    The program (what the parent does, which helper child runs) is chosen in Init and constant
    afterwards; the actions are the steps of the parent tasks, of the child and of the kernel.
 
-   Named deviation (reproduced on the real crate, see notes/C20.md):
-     PollWriteBlocksThread  - the child's pipes are left in blocking mode, so on the polling
-       driver the write(2) issued after POLLOUT does not return a short count but blocks the
-       whole runtime thread until the complete buffer is accepted; with an echoing child and a
+   Repaired defect kept as a switch (BlockingChildPipes = TRUE is the code before the fix
+   "child stdio pipes put the polling driver's runtime thread to sleep", see notes/C20.md):
+     PollWriteBlocksThread  - the child's pipes were left in blocking mode, so on the polling
+       driver the write(2) issued after POLLOUT did not return a short count but blocked the
+       whole runtime thread until the complete buffer was accepted; with an echoing child and a
        buffer larger than what both pipes and the child can absorb this is a deadlock although
-       reader and writer run as concurrent tasks.
+       reader and writer run as concurrent tasks.  The control config MC_Process_pollstrict.cfg
+       sets the switch and must show that deadlock; everywhere else the switch is FALSE.
    Named, expected scenarios that are not defects of compio:
      the classic sequential deadlocks (write everything then read; wait first then read) and
      WaitHoldsStdin (Child::wait / wait_with_output keep a piped stdin that was not taken
@@ -44,7 +46,8 @@ CONSTANTS K,           \* pipe capacity in blocks
           Codes, Sigs, \* exit codes / signals for the status families
           Drivers,     \* subset of {"iour", "poll"}
           Impls,       \* subset of {"blocking", "pidfd"} - the two child_wait paths
-          Families     \* which program families to include
+          Families,    \* which program families to include
+          BlockingChildPipes \* TRUE = compio-process before the repair: the parent's pipe ends stay blocking
 
 Min(a, b) == IF a < b THEN a ELSE b
 Ids(base, from, n) == [i \in 1..n |-> base + from + i]
@@ -260,13 +263,14 @@ Accepted(n) ==
 \* ChildStdin::write -> Write op completes with what the pipe accepts (short count possible)
 WriteCall ==
   /\ wpc = "run" /\ ~blk /\ wpiece > 0 /\ ch = "run" /\ Free > 0
-  /\ (prog.driver = "iour" \/ Free >= wpiece)
+  /\ (prog.driver = "iour" \/ ~BlockingChildPipes \/ Free >= wpiece)
   /\ Accepted(Min(wpiece, Free))
   /\ UNCHANGED <<inW, wpc, blk>> /\ UNCHANGED UW
 
-\* DEVIATION (polling driver): POLLOUT was reported because the pipe is not full, then the
-\* blocking write(2) takes what fits and sleeps inside the kernel with the rest.
+\* OLD BEHAVIOUR (polling driver, blocking pipe): POLLOUT was reported because the pipe is not
+\* full, then the blocking write(2) takes what fits and sleeps inside the kernel with the rest.
 PollWriteBlocksThread ==
+  /\ BlockingChildPipes
   /\ wpc = "run" /\ ~blk /\ wpiece > 0 /\ ch = "run" /\ Free > 0
   /\ prog.driver = "poll" /\ Free < wpiece
   /\ Accepted(Free)
@@ -449,6 +453,7 @@ MustComplete(p) ==
      \/ p.mode = "wwo" /\ p.nin <= K
      \/ MaxVol(p) <= K
 
+\* only reachable with BlockingChildPipes = TRUE (the code before the repair)
 KnownPollBlock == prog.driver = "poll" /\ blk
 
 NoDeadlockStrict == Terminal /\ MustComplete(prog) => AllDone
